@@ -446,5 +446,8 @@ CLAUSES = [
     Clause("nested_pair_form", c_nested_pair, _ctor_cases(), 1000, 32000),
     Clause("quaternion_get_set_identity", c_quat_roundtrip, _fd(a=_poses(), fa=_FORM), 1500, 48000),
     Clause("matmul_raw_matrix_right", c_matmul_raw_right, _fd(a=_poses(), b=_poses(), fa=_FORM), 1000, 32000),
-    Clause("matmul_raw_matrix_left", c_matmul_raw_left, _fd(a=_poses(), b=_poses(), fa=_FORM), 1000, 32000),
+    # Coordinator decision: `ndarray @ tm` (numpy never defers to tm.__rmatmul__, so it raises ValueError) is NOT part
+    # of the property statement (it speaks of composing transforms); the clause c_matmul_raw_left is kept in the
+    # module for reference but not registered, and the proposed `__array_ufunc__ = None` patch was not landed because
+    # it changes the meaning of every other `ndarray <op> tm` expression (see notes/C04.md).
 ]
